@@ -417,3 +417,23 @@ def gem_link(selector):
 def gem_desc(name):
     d = name or ""
     return d.encode(errors="surrogateescape").decode(errors="backslashreplace")
+
+
+# ---- C09: reference reading of a gophermap (used by the bounded stand-in and as documentation of the at-assertions)
+def gophermap_ref(text, base):
+    """One tuple (type, name, selector, host, port) per line of `text`; host/port None = this server.
+    `base` is the directory selector ('' for the root).  Written from the property statement."""
+    out = []
+    for line in text.splitlines(True):
+        if "\t" not in line:
+            out.append(("i", line.strip(), "fake", "(NULL)", 0))
+            continue
+        f = [x.strip() for x in line.split("\t")]
+        desc = f[0][1:]
+        sel = f[1] if f[1] != "" else desc
+        if not (sel.startswith("/") or sel.startswith("URL:")):
+            sel = base + "/" + sel
+        host = f[2] if len(f) >= 3 and f[2] != "" else None
+        port = int(f[3]) if len(f) >= 4 and f[3] != "" else None
+        out.append((f[0][0], desc, sel, host, port))
+    return out
